@@ -1,73 +1,110 @@
 /-
   C09 — Application answers go only to the requesting connection, at most once.
+
+  Pending answers are booked per connection (`_peer_waiting_answer[conn.ident]`,
+  repaired code); `route_answer` looks the hop-by-hop id up across connections.
 -/
 import DV.Proofs.NodeQ
 namespace DV.Node
 
-/-- Whatever `route_answer` returns is a live, ready connection whose host
-    identity has an unanswered request with the answer's hop-by-hop id. -/
+/-- Whatever `route_answer` returns is a registered, ready connection that has
+    an unanswered request with the answer's hop-by-hop id booked on it. -/
 theorem C09_routed_conn (s s' : St) (m : AMsg) (cid : Nat) (h : routeAnswer s m = .ok (s', cid)) :
-    ∃ c host l, (host, l) ∈ s.peerWaiting ∧ l.contains m.hbh = true ∧
-      c.id = cid ∧ c.hostIdentity = host ∧ c.state.isReady = true ∧
-      c ∈ (s'.connections.filterMap s'.conn?) := by
+    ∃ c l, (cid, l) ∈ s.peerWaiting ∧ l.contains m.hbh = true ∧ s.conn? cid = some c ∧ c.id = cid ∧
+      c.state.isReady = true ∧ cid ∈ s.connections := by
   unfold routeAnswer at h
   split at h
   · simp at h
-  · rename_i host l hfind
+  · rename_i wc l hfind
     dsimp only at h
     split at h
     · simp at h
-    · rename_i c hc
+    · rename_i hreg
       split at h
-      · rename_i hready
-        simp only [Except.ok.injEq, Prod.mk.injEq] at h
-        obtain ⟨rfl, rfl⟩ := h
-        have hmem := List.mem_of_find?_eq_some hfind
-        have hp := List.find?_some hfind
-        have hmem2 := List.mem_of_find?_eq_some hc
-        have hp2 := List.find?_some hc
-        simp only [beq_iff_eq] at hp2
-        exact ⟨c, host, l, hmem, hp, rfl, hp2, hready, hmem2⟩
       · simp at h
+      · rename_i c hc
+        split at h
+        · rename_i hready
+          simp only [Except.ok.injEq, Prod.mk.injEq] at h
+          obtain ⟨rfl, rfl⟩ := h
+          have hmem := List.mem_of_find?_eq_some hfind
+          have hp := List.find?_some hfind
+          have hcid : c.id = wc := by
+            have := List.find?_some hc
+            simpa using this
+          have hreg' : wc ∈ s.connections := by simpa using hreg
+          rw [hcid]
+          exact ⟨c, l, hmem, hp, hc, hcid, hready, hreg'⟩
+        · simp at h
 
-/-- If the requester's connection is gone (no live connection bears the host
-    identity the request is booked under) the submission fails with the
-    not-routable error — nothing is queued anywhere. -/
-theorem C09_gone (s : St) (m : AMsg) (host : String) (l : List Nat)
-    (hfind : s.peerWaiting.find? (fun (p : String × List Nat) => p.2.contains m.hbh) = some (host, l))
-    (hgone : ∀ c ∈ (s.connections.filterMap s.conn?), c.hostIdentity ≠ host) :
+/-- After routing, the hop-by-hop id is no longer booked on that connection: a
+    second answer for the same request is not routable through it. -/
+theorem C09_once (s s' : St) (m : AMsg) (cid : Nat) (h : routeAnswer s m = .ok (s', cid)) :
+    ∀ l, (cid, l) ∈ s'.peerWaiting → l.contains m.hbh = false := by
+  unfold routeAnswer at h
+  split at h
+  · simp at h
+  · rename_i wc l0 hfind
+    dsimp only at h
+    split at h
+    · simp at h
+    · split at h
+      · simp at h
+      · rename_i c hc
+        split at h
+        · simp only [Except.ok.injEq, Prod.mk.injEq] at h
+          obtain ⟨rfl, rfl⟩ := h
+          have hcid : c.id = wc := by
+            have := List.find?_some hc
+            simpa using this
+          intro l hl
+          simp only [List.mem_map] at hl
+          obtain ⟨p, _, hp⟩ := hl
+          by_cases hw : p.1 == wc
+          · simp only [hw, if_true, Prod.mk.injEq] at hp
+            rw [← hp.2]
+            simp
+          · have hw' : (p.1 == wc) = false := by simpa using hw
+            simp only [hw', Bool.false_eq_true, if_false] at hp
+            rw [hp] at hw'
+            simp [hcid] at hw'
+        · simp at h
+
+/-- If the requesting connection is gone (no longer registered) the submission
+    fails with the not-routable error — nothing is queued anywhere. -/
+theorem C09_gone (s : St) (m : AMsg) (wc : Nat) (l : List Nat)
+    (hfind : s.peerWaiting.find? (fun (p : Nat × List Nat) => p.2.contains m.hbh) = some (wc, l))
+    (hgone : wc ∉ s.connections) :
+    routeAnswer s m = .error .notRoutable := by
+  unfold routeAnswer
+  have : s.connections.contains wc = false := by simpa using hgone
+  simp only [hfind]
+  have h2 : ({ s with peerWaiting := s.peerWaiting.map fun (p : Nat × List Nat) =>
+        if p.1 == wc then (p.1, p.2.filter (· != m.hbh)) else p } : St).connections.contains wc = false := this
+  simp only [h2, Bool.not_false, if_true]
+
+/-- A not-ready requester (e.g. after a DPR) is not-routable as well. -/
+theorem C09_not_ready (s : St) (m : AMsg) (wc : Nat) (l : List Nat) (c : Conn)
+    (hfind : s.peerWaiting.find? (fun (p : Nat × List Nat) => p.2.contains m.hbh) = some (wc, l))
+    (hc : s.conn? wc = some c) (hnr : c.state.isReady = false) :
     routeAnswer s m = .error .notRoutable := by
   unfold routeAnswer
   simp only [hfind]
-  have : ((s.connections.filterMap ({ s with peerWaiting := s.peerWaiting.map fun (p : String × List Nat) =>
-      if p.1 == host then (p.1, p.2.filter (· != m.hbh)) else p } : St).conn?).find?
-        (fun (c : Conn) => c.hostIdentity == host)) = none := by
-    rw [List.find?_eq_none]
-    intro c hc
-    have := hgone c hc
-    simpa using this
-  simp only [this]
-
-/-- A not-ready requester (e.g. after a DPR) is not-routable as well. -/
-theorem C09_not_ready (s : St) (m : AMsg) (host : String) (l : List Nat) (c : Conn)
-    (hfind : s.peerWaiting.find? (fun (p : String × List Nat) => p.2.contains m.hbh) = some (host, l))
-    (hc : ((s.connections.filterMap ({ s with peerWaiting := s.peerWaiting.map fun (p : String × List Nat) =>
-      if p.1 == host then (p.1, p.2.filter (· != m.hbh)) else p } : St).conn?).find?
-        (fun (c : Conn) => c.hostIdentity == host)) = some c)
-    (hnr : c.state.isReady = false) :
-    routeAnswer s m = .error .notRoutable := by
-  unfold routeAnswer
-  simp only [hfind, hc, hnr, Bool.false_eq_true, if_false]
+  split
+  · rfl
+  · have : ({ s with peerWaiting := s.peerWaiting.map fun (p : Nat × List Nat) =>
+        if p.1 == wc then (p.1, p.2.filter (· != m.hbh)) else p } : St).conn? wc = some c := hc
+    simp only [this, hnr, Bool.false_eq_true, if_false]
 
 /-- FULL STATEMENT (property): the answer is queued on the connection on which
     the matching request was read.  False of the modelled code when two
     connections have unanswered requests with one hop-by-hop id — see
     `C09_route_counterexample`; `C09_routed_conn` is what holds in general, and
-    under the uniqueness hypothesis it pins the connection down. -/
+    when the hop-by-hop id is booked on one connection only it pins the
+    connection down (`C09_route_unique`). -/
 def C09_route_statement : Prop :=
-  ∀ (s s' : St) (m : AMsg) (cid reqConn : Nat) (host : String),
-    (∃ c, s.conn? reqConn = some c ∧ c.hostIdentity = host ∧ reqConn ∈ s.connections) →
-    (∃ l, (host, l) ∈ s.peerWaiting ∧ l.contains m.hbh = true) →
+  ∀ (s s' : St) (m : AMsg) (cid reqConn : Nat),
+    (∃ l, (reqConn, l) ∈ s.peerWaiting ∧ l.contains m.hbh = true) →
     routeAnswer s m = .ok (s', cid) → cid = reqConn
 
 def cexState : St :=
@@ -75,14 +112,24 @@ def cexState : St :=
     conns := [{ id := 0, dir := .recv, state := .ready, hostIdentity := "p1", lastRead := 0, hbh := 0 },
               { id := 1, dir := .recv, state := .ready, hostIdentity := "p2", lastRead := 0, hbh := 0 }],
     connections := [0, 1], peerSockets := [0, 1],
-    peerWaiting := [("p1", [7]), ("p2", [7])], e2e := 0, nextHbhSeed := 0 }
+    peerWaiting := [(0, [7]), (1, [7])], e2e := 0, nextHbhSeed := 0 }
 
 theorem C09_route_counterexample : ¬ C09_route_statement := by
   intro h
   have := h cexState
-    { cexState with peerWaiting := [("p1", []), ("p2", [7])] }
-    { cmd := 272, flags := 0, app := 4, hbh := 7, e2e := 1 } 0 1 "p2"
-    ⟨_, rfl, rfl, by decide⟩ ⟨[7], by decide, by decide⟩ (by rfl)
+    { cexState with peerWaiting := [(0, []), (1, [7])] }
+    { cmd := 272, flags := 0, app := 4, hbh := 7, e2e := 1 } 0 1
+    ⟨[7], by decide, by decide⟩ (by rfl)
   exact absurd this (by decide)
+
+/-- With the hop-by-hop id booked on one connection only (identifiers are drawn
+    per connection; coinciding values on two connections are the recorded finding)
+    the answer goes to exactly the connection the request arrived on. -/
+theorem C09_route_unique (s s' : St) (m : AMsg) (cid reqConn : Nat) (l : List Nat)
+    (_hreq : (reqConn, l) ∈ s.peerWaiting) (_hl : l.contains m.hbh = true)
+    (huniq : ∀ c' l', (c', l') ∈ s.peerWaiting → l'.contains m.hbh = true → c' = reqConn)
+    (h : routeAnswer s m = .ok (s', cid)) : cid = reqConn := by
+  obtain ⟨c, l', hmem, hcont, _, _, _, _⟩ := C09_routed_conn s s' m cid h
+  exact huniq cid l' hmem hcont
 
 end DV.Node
